@@ -49,7 +49,9 @@ func variants() []variant {
 	return vs
 }
 
-func expected(limit, passes, n int) (int, bool) { return c08cell.Expected(limit, passes, n) }
+func expected(limit, passes, n int) (int, bool) {
+	return c08cell.Expected(uint64(limit), uint64(passes), n)
+}
 
 // capFor: drain cells that are not meant to be cut get a cap above everything the provider may deliver
 func capFor(limit, passes, n int) int {
@@ -75,6 +77,24 @@ type cell struct {
 	idle             bool
 	cfail, rfail     int  // fault plan: close fails (1) / Close field nil (2); the rfail-th file operation fails
 	rsticky, ofail   bool // … and every later one; opening the ammo file fails
+	// round 4
+	xl, xp uint64 // != 0: the limit / passes of the cell (any value of a uint option, also above the int range), instead of limit / passes
+	pick   []int  // chosencases: ids of the listed entries (nil: no chosencases option)
+	src    string // generic JSON provider: data source kind
+}
+
+func (c cell) lim() uint64 {
+	if c.xl != 0 {
+		return c.xl
+	}
+	return uint64(c.limit)
+}
+
+func (c cell) pas() uint64 {
+	if c.xp != 0 {
+		return c.xp
+	}
+	return uint64(c.passes)
 }
 
 func b2i(x bool) int {
@@ -86,7 +106,7 @@ func b2i(x bool) int {
 
 func (c cell) line() string {
 	s := fmt.Sprintf("kind=%s preload=%d limit=%d passes=%d n=%d cons=%d cap=%d junk=%d",
-		c.v.kind, b2i(c.v.preload), c.limit, c.passes, c.n, c.cons, c.cap, b2i(c.junk))
+		c.v.kind, b2i(c.v.preload), c.lim(), c.pas(), c.n, c.cons, c.cap, b2i(c.junk))
 	if c.mode != "" && c.mode != "drain" {
 		s += " mode=" + c.mode
 	}
@@ -125,6 +145,16 @@ func (c cell) line() string {
 	}
 	if c.ofail {
 		s += " ofail=1"
+	}
+	if c.pick != nil {
+		p := make([]string, len(c.pick))
+		for i, id := range c.pick {
+			p[i] = strconv.Itoa(id)
+		}
+		s += " pick=" + strings.Join(p, ",")
+	}
+	if c.src != "" {
+		s += " src=" + c.src
 	}
 	return s
 }
@@ -383,6 +413,194 @@ func gen(r *rand.Rand, tier string) []string {
 		}
 	}
 
+
+	// ------------------------------------------------------------------------------------------------ round 4
+	// I. chosencases (http kinds with and without preload, grpc/json): the entries of a pass are the entries of the file
+	// whose tag is listed.  EVERY non-empty subset of the entries of every file of 1..4 entries x limit 0..4 x passes 0..3
+	// (the listed entries at the start, in the middle, at the end of the file, fewer or more of them than the limit).
+	var fvs []variant // kinds with a chosencases option
+	for _, v := range vs {
+		if c08cell.IsHTTP(v.kind) || v.kind == c08cell.KGRPCJSON {
+			fvs = append(fvs, v)
+		}
+	}
+	subsetOf := func(n, mask int) []int {
+		p := []int{}
+		for i := 0; i < n; i++ {
+			if mask&(1<<i) != 0 {
+				p = append(p, i)
+			}
+		}
+		return p
+	}
+	maxFN, maxFL, maxFP := 4, 4, 3
+	if thorough {
+		maxFN, maxFL, maxFP = 6, 8, 4
+	}
+	for vi, v := range fvs {
+		for n := 1; n <= maxFN; n++ {
+			for mask := 1; mask < 1<<n; mask++ {
+				pick := subsetOf(n, mask)
+				for limit := 0; limit <= maxFL; limit++ {
+					for passes := 0; passes <= maxFP; passes++ {
+						h := vi + n + mask + limit + 3*passes
+						c := cell{v: v, limit: limit, passes: passes, n: n, cons: 1 + 2*(h%2), cap: capFor(limit, passes, len(pick)), pick: pick, junk: h%3 == 0, eol: h % 4}
+						if h%3 == 1 {
+							c.via = "cfg"
+						}
+						add(c)
+					}
+				}
+			}
+		}
+	}
+	// I2. … cut after every number of deliveries, consumers that stop, a cancel from inside a file operation / from a
+	// timer, through the real engine, with a fault plan
+	type pb struct {
+		limit, passes, n int
+		pick             []int
+	}
+	pbs := []pb{{3, 0, 4, []int{3}}, {0, 2, 4, []int{1, 3}}, {3, 1, 6, []int{3, 4, 5}}, {5, 2, 5, []int{0, 4}}, {0, 0, 3, []int{2}}, {2, 3, 3, []int{0, 1, 2}}}
+	for vi, v := range fvs {
+		for bi, b := range pbs {
+			k := len(b.pick)
+			m, bounded := expected(b.limit, b.passes, k)
+			full := capFor(b.limit, b.passes, k)
+			if bounded {
+				for cp := 1; cp <= m+1; cp++ {
+					add(cell{v: v, limit: b.limit, passes: b.passes, n: b.n, cons: 1 + 2*((cp+bi)%2), cap: cp, pick: b.pick})
+				}
+			}
+			for _, cp := range []int{0, 1, 2, 5} {
+				add(cell{v: v, limit: b.limit, passes: b.passes, n: b.n, cons: 1 + (cp+vi)%2, cap: cp, mode: "stall", pick: b.pick})
+			}
+			for at := 0; at <= 6; at++ {
+				add(cell{v: v, limit: b.limit, passes: b.passes, n: b.n, cons: 1 + (at+bi)%3, cap: full, mode: "ext", at: at, pick: b.pick, junk: at%2 == 1, eol: at % 4})
+			}
+			add(cell{v: v, limit: b.limit, passes: b.passes, n: b.n, cons: 2, cap: full, mode: "tcan", at: 50 * bi, pick: b.pick, jit: 1 + bi%3})
+			for _, sh := range []int{0, 4} {
+				if !bounded && sh == 0 {
+					continue
+				}
+				add(cell{v: v, limit: b.limit, passes: b.passes, n: b.n, cons: 1 + 2*((bi+sh/4)%2), mode: "engine", via: "cfg", shots: sh, pick: b.pick})
+			}
+			add(cell{v: v, limit: b.limit, passes: b.passes, n: b.n, cons: 1, cap: full, pick: b.pick, cfail: 1})
+			for _, kf := range []int{2, 3, 5, 8} {
+				add(cell{v: v, limit: b.limit, passes: b.passes, n: b.n, cons: 1 + kf%2, cap: full, pick: b.pick, rfail: kf, rsticky: kf%3 == 0, eol: kf % 4})
+			}
+		}
+	}
+
+	// J. every value of the options: limit / passes near and above the int range ("practically unbounded" written as a
+	// number), alone, together with a small other bound (which then decides) and with each other (cut at cap); products
+	// passes x entries that do not fit 64 bits
+	const two63 = uint64(1) << 63
+	for vi, v := range vs {
+		uintKind := c08cell.IsHTTP(v.kind) || v.kind == c08cell.KHTTPScn || v.kind == c08cell.KGRPCScn
+		for n := 1; n <= 4; n++ {
+			var hs []uint64
+			if uintKind {
+				hs = []uint64{two63, two63 + 1, 1<<62 + 1, ^uint64(0), 1 << 32, 1<<32 + 1, 1<<31 + 1, ^uint64(0)/uint64(n) + 1, ^uint64(0)/uint64(n) + 2}
+			} else { // `int` options
+				hs = []uint64{two63 - 1, 1<<62 + 1, 1<<32 + 1, 1 << 31, 1<<31 + 1, (two63-1)/uint64(n+1) + 1}
+			}
+			if thorough {
+				for i := 0; i < 12; i++ {
+					x := r.Uint64()>>uint(r.Intn(34)) | 1<<31
+					if !uintKind {
+						x &= two63 - 1
+					}
+					hs = append(hs, x)
+				}
+			}
+			for hi, hv := range hs {
+				h := vi + n + hi
+				via := ""
+				if h%2 == 0 {
+					via = "cfg"
+				}
+				for _, limit := range []int{0, 3, 7} { // huge passes
+					c := cell{v: v, limit: limit, xp: hv, n: n, cons: 1 + h%2, cap: limit + n + 3, via: via, eol: h % 4}
+					if limit == 0 {
+						c.cap = 3*n + 5
+					}
+					add(c)
+				}
+				for _, passes := range []int{0, 2} { // huge limit
+					c := cell{v: v, xl: hv, passes: passes, n: n, cons: 1 + (h+1)%2, cap: passes*n + n + 3, via: via, junk: h%3 == 0}
+					if passes == 0 {
+						c.cap = 3*n + 5
+					}
+					add(c)
+				}
+				add(cell{v: v, xl: hv, xp: hs[(hi+1)%len(hs)], n: n, cons: 1, cap: 2*n + 3, via: via})
+				if n == 2 || n == 3 {
+					add(cell{v: v, limit: 3, xp: hv, n: n, cons: 1, cap: 2, mode: "stall", via: via})
+					add(cell{v: v, limit: 5, xp: hv, n: n, cons: 2, cap: 12, mode: "ext", at: 1 + hi%5, via: via})
+					add(cell{v: v, limit: 5, xp: hv, n: n, cons: 1 + 2*(h%2), mode: "engine", via: "cfg", shots: 0})
+					add(cell{v: v, xp: hv, n: n, cons: 2, mode: "engine", via: "cfg", shots: 4})
+				}
+			}
+		}
+	}
+
+	// K. the data sources of the generic JSON provider: inline data (NewInline / `type: inline`), NewReader over a
+	// ReadSeeker / a ReadSeekCloser / a plain io.Reader, NewBuffer (the last two cannot be rewound: read once)
+	gv := variant{c08cell.KGenJSON, false}
+	maxSL, maxSP, maxSN := 4, 3, 4
+	if thorough {
+		maxSL, maxSP, maxSN = 9, 5, 7
+	}
+	for si, src := range []string{"inline", "rs", "rsc", "pipe", "buf"} {
+		for limit := 0; limit <= maxSL; limit++ {
+			for passes := 0; passes <= maxSP; passes++ {
+				for n := 1; n <= maxSN; n++ {
+					for _, cons := range []int{1, 3} {
+						c := cell{v: gv, limit: limit, passes: passes, n: n, cons: cons, cap: capFor(limit, passes, n), src: src, junk: (limit+passes+n)%2 == 1, eol: (limit + passes + n + cons) % 4}
+						if src == "inline" && (limit+passes+n+cons)%2 == 0 {
+							c.via = "cfg"
+						}
+						add(c)
+					}
+				}
+			}
+		}
+		if !c08cell.Seekable(src) {
+			continue
+		}
+		for bi, b := range []bnd{{3, 0, 2}, {0, 2, 2}, {5, 2, 3}, {0, 0, 2}, {0, 3, 1}} {
+			m, bounded := expected(b.limit, b.passes, b.n)
+			full := capFor(b.limit, b.passes, b.n)
+			if bounded {
+				for cp := 1; cp <= m+1; cp++ {
+					add(cell{v: gv, limit: b.limit, passes: b.passes, n: b.n, cons: 1 + 2*((cp+bi)%2), cap: cp, src: src})
+				}
+			}
+			for _, cp := range []int{0, 2, 5} {
+				add(cell{v: gv, limit: b.limit, passes: b.passes, n: b.n, cons: 1 + cp%2, cap: cp, mode: "stall", src: src})
+			}
+			for at := 0; at <= 5; at++ {
+				add(cell{v: gv, limit: b.limit, passes: b.passes, n: b.n, cons: 1 + (at+si)%3, cap: full, mode: "ext", at: at, src: src})
+			}
+			add(cell{v: gv, limit: b.limit, passes: b.passes, n: b.n, cons: 2, cap: full, mode: "tcan", at: 40 * bi, src: src, jit: 1 + bi%3})
+			for _, sh := range []int{0, 4} {
+				if !bounded && sh == 0 {
+					continue
+				}
+				c := cell{v: gv, limit: b.limit, passes: b.passes, n: b.n, cons: 1 + 2*((bi+sh/4)%2), mode: "engine", shots: sh, src: src}
+				if src == "inline" {
+					c.via = "cfg"
+				}
+				add(c)
+			}
+			if src != "inline" { // the readers go through the cell's fault hooks
+				for _, kf := range []int{1, 2, 3, 5} {
+					add(cell{v: gv, limit: b.limit, passes: b.passes, n: b.n, cons: 1 + kf%2, cap: full, src: src, rfail: kf, rsticky: kf%2 == 0, cfail: b2i(src == "rsc" && kf%2 == 1)})
+				}
+			}
+		}
+	}
+
 	// G. random larger cells, all modes
 	extra := 400
 	maxN, maxL, maxP = 12, 30, 6
@@ -419,10 +637,42 @@ func gen(r *rand.Rand, tier string) []string {
 			c.pad = 200 + r.Intn(1800)
 		}
 		c.eol = r.Intn(4)
+		// round 4: a chosencases option (a random non-empty subset), a data source, a huge second bound
+		eff := n
+		switch r.Intn(5) {
+		case 0:
+			if c08cell.IsHTTP(v.kind) || v.kind == c08cell.KGRPCJSON {
+				c.pick = []int{}
+				for len(c.pick) == 0 {
+					for i := 0; i < n; i++ {
+						if r.Intn(3) == 0 {
+							c.pick = append(c.pick, i)
+						}
+					}
+				}
+				eff = len(c.pick)
+				m, bounded = expected(limit, passes, eff)
+				c.cap = capFor(limit, passes, eff)
+			}
+		case 1:
+			if v.kind == c08cell.KGenJSON {
+				c.src = []string{"inline", "rs", "rsc"}[r.Intn(3)]
+				if c.src != "inline" {
+					c.via = ""
+				}
+			}
+		case 2:
+			big := uint64(1)<<(31+uint(r.Intn(32))) + uint64(r.Intn(3))
+			if limit != 0 && passes == 0 {
+				c.xp = big
+			} else if passes != 0 && limit == 0 {
+				c.xl = big
+			}
+		}
 		switch r.Intn(6) {
 		case 0:
 			c.mode = "stall"
-			c.cap = r.Intn(2 * (n + 2))
+			c.cap = r.Intn(2 * (eff + 2))
 			if bounded && r.Intn(2) == 0 {
 				c.cap = m - 2 + r.Intn(5)
 				if c.cap < 0 {
@@ -438,7 +688,9 @@ func gen(r *rand.Rand, tier string) []string {
 			c.jit = r.Intn(5)
 		case 2:
 			c.mode = "engine"
-			c.via = "cfg"
+			if c.src == "" || c.src == "inline" {
+				c.via = "cfg"
+			}
 			c.cons = 1 + r.Intn(4)
 			c.shots = r.Intn(2) * (1 + r.Intn(40))
 			if !bounded && c.shots == 0 {
@@ -478,13 +730,32 @@ func atoi(s string) int {
 	return n
 }
 
+func atou(s string) uint64 {
+	n, _ := strconv.ParseUint(s, 10, 64)
+	return n
+}
+
+// parsePick: "0,2,5" -> ids; absent -> nil (no chosencases option)
+func parsePick(s string, ok bool) []int {
+	if !ok {
+		return nil
+	}
+	out := []int{}
+	for _, f := range strings.Split(s, ",") {
+		if f != "" {
+			out = append(out, atoi(f))
+		}
+	}
+	return out
+}
+
 func run(input string) string {
 	kv := drv.KV(input)
 	c := c08cell.Cell{
 		Kind:    kv["kind"],
 		Preload: kv["preload"] == "1",
-		Limit:   atoi(kv["limit"]),
-		Passes:  atoi(kv["passes"]),
+		Limit:   atou(kv["limit"]),
+		Passes:  atou(kv["passes"]),
 		N:       atoi(kv["n"]),
 		Cons:    atoi(kv["cons"]),
 		Cap:     atoi(kv["cap"]),
@@ -502,7 +773,10 @@ func run(input string) string {
 		RFail:   atoi(kv["rfail"]),
 		RSticky: kv["rsticky"] == "1",
 		OFail:   kv["ofail"] == "1",
+		Src:     kv["src"],
 	}
+	pk, hasPick := kv["pick"]
+	c.Pick = parsePick(pk, hasPick)
 	if c.Mode == "" {
 		c.Mode = "drain"
 	}
@@ -579,7 +853,32 @@ func class(input, obs string) string {
 		}
 		mode += "/" + f
 	}
-	return mode + ":" + kv["kind"] + pre + "/" + b
+	// round 4: chosencases (how the listed entries lie in the file), huge bounds, data source
+	x := ""
+	if pk, ok := kv["pick"]; ok {
+		ids := parsePick(pk, true)
+		n := atoi(kv["n"])
+		switch {
+		case len(ids) == n:
+			x += "+pick-all"
+		case len(ids) > 0 && ids[0] >= len(ids) && uint64(ids[0]) >= atou(kv["limit"]) && kv["limit"] != "0":
+			x += "+pick-behind-limit" // none of the listed entries is among the first `limit` entries of the file
+		case len(ids) > 0 && ids[0] > 0:
+			x += "+pick-late"
+		default:
+			x += "+pick"
+		}
+	}
+	if len(kv["limit"]) > 9 {
+		x += "+hugelimit"
+	}
+	if len(kv["passes"]) > 9 {
+		x += "+hugepasses"
+	}
+	if kv["src"] != "" {
+		x += "+src-" + kv["src"]
+	}
+	return mode + ":" + kv["kind"] + pre + x + "/" + b
 }
 
 func main() {
@@ -595,6 +894,9 @@ func main() {
 			"(unbounded cells cancelled after cap acquisitions); cancellation after every number of deliveries 1..M+1 of bounded cells; consumers that stop after cap acquisitions followed by a cancel (stall); " +
 			"cancellation from inside the k-th file operation (ext) and from a timer (tcan); a slice through the real core/engine with 1 or 3 instances and a recording gun, " +
 			"fault plans (a failing / absent Close, an I/O error in the k-th file operation once or from then on, a failing open) alone, combined, and together with a cancel after cap acquisitions / from inside a file operation / at the bound; " +
+			"round 4: a chosencases option (every non-empty subset of the entries of files of 1..4 entries x limit 0..4 x passes 0..3, all kinds that have the option, preload on and off; also cut, stalled, through the engine, with faults), " +
+			"limit / passes near and above the int range (2^31+1 .. 2^64-1, products passes x entries that do not fit 64 bits) alone, with a small other bound and together, " +
+			"the data sources of the generic JSON provider (file, inline, NewReader over a ReadSeeker / ReadSeekCloser / plain io.Reader, NewBuffer); " +
 			"also with a schedule without any token (idle: the engine cancels the provider inside its gate-th file operation, e.g. in the middle of LoadAmmo); four shapes of line ends (eol: LF, no final newline, CRLF, surrounding blank lines); random larger cells in all modes. " +
 			"Every cell is non-trivial (class = mode:kind/preload/bound shape)",
 	})
